@@ -660,6 +660,9 @@ theorem embT_listingNodeC11 (tv : Node → PVal) (ds : List Node) :
       (.dict [(['t', 'y', 'p', 'e'], .str ['a', 'p', 'p', 'l', 'i', 'c', 'a', 't', 'i', 'o', 'n', '/', 'h', 't', 'm', 'l', '-',
         'd', 'e', 'p', 'e', 'n', 'd', 'e', 'n', 'c', 'i', 'e', 's'])]) [.str (Doc.listingText ds)] (.bool true) := rfl
 
+/-- the globals of the C11 tie: the tables of `cfg`, and `HTMLDependency.as_html_tags` (not translated) answering `f` -/
+def globalsC11 (cfg : Cfg) (f : PVal → PVal → PVal → PyM PVal) : Globals := { globalsOf cfg with asHtmlTagsC11 := f }
+
 /-- `lib_prefix`: None or a string -/
 def embLpC11 : Option Str → PVal
   | none => .none
